@@ -22,6 +22,7 @@ import (
 	"math/rand"
 	"os"
 	"path/filepath"
+	"runtime"
 	"sort"
 	"strconv"
 	"strings"
@@ -60,6 +61,51 @@ func vEnvInt(name string, def int64) int64 {
 	return def
 }
 
+// vStuckSummary: where the goroutines that are inside the library stand (for the report of a hang)
+func vStuckSummary() string {
+	buf := make([]byte, 1<<21)
+	n := runtime.Stack(buf, true)
+	var parts []string
+	for _, blk := range strings.Split(string(buf[:n]), "\n\n") {
+		if !strings.Contains(blk, "shmipc-go.") || strings.Contains(blk, "vStuckSummary") {
+			continue
+		}
+		lines := strings.Split(blk, "\n")
+		var fr []string
+		for _, l := range lines[1:] {
+			if strings.HasPrefix(l, "github.com/cloudwego/shmipc-go.") && len(fr) < 3 {
+				l = strings.TrimPrefix(l, "github.com/cloudwego/shmipc-go.")
+				if i := strings.Index(l, "("); i > 0 {
+					l = l[:i]
+				}
+				fr = append(fr, l)
+			}
+		}
+		parts = append(parts, lines[0]+" "+strings.Join(fr, " < "))
+		if len(parts) >= 6 {
+			break
+		}
+	}
+	if len(parts) == 0 {
+		return ""
+	}
+	return "; goroutines inside the library: " + strings.Join(parts, " | ")
+}
+
+// vOverloaded: the one-minute load average exceeds the number of processors
+func vOverloaded() bool {
+	b, err := os.ReadFile("/proc/loadavg")
+	if err != nil {
+		return false
+	}
+	f := strings.Fields(string(b))
+	if len(f) == 0 {
+		return false
+	}
+	l, err := strconv.ParseFloat(f[0], 64)
+	return err == nil && l > float64(runtime.NumCPU())
+}
+
 func vSafeExec(p *vProp, ops []string) (res vResult) {
 	defer func() {
 		if r := recover(); r != nil {
@@ -79,10 +125,19 @@ func vSafeExec(p *vProp, ops []string) (res vResult) {
 		}()
 		done <- p.exec(ops)
 	}()
-	select {
-	case res = <-done:
-	case <-time.After(time.Duration(vEnvInt("VERIF_CASE_TIMEOUT_S", 60)) * time.Second):
-		res = vResult{specFail: "case timed out (hang)", key: "hang"}
+	// a case that does not finish within the limit hangs - unless the machine is overloaded (more runnable threads than
+	// processors): then the limit is granted again, at most four times
+	limit := time.Duration(vEnvInt("VERIF_CASE_TIMEOUT_S", 60)) * time.Second
+	for round := 0; ; round++ {
+		select {
+		case res = <-done:
+		case <-time.After(limit):
+			if round < 3 && vOverloaded() {
+				continue
+			}
+			res = vResult{specFail: "case timed out (hang)" + vStuckSummary(), key: "hang"}
+		}
+		break
 	}
 	for len(res.out) < len(ops) {
 		res.out = append(res.out, "missing")
@@ -328,7 +383,7 @@ func TestVerifMain(t *testing.T) {
 			// a call of the real code did not return: the goroutine (and whatever scheduler / lock state it holds) is
 			// stuck for good, later cases would only hang on it. Report this case as it is and stop the run.
 			seenKeys[res.key]++
-			failures = append(failures, vFailure{Key: "hang", What: fmt.Sprintf("the case did not finish within %d s: a call into the library never returned (no shrinking: the process state is not reusable)", vEnvInt("VERIF_CASE_TIMEOUT_S", 60)), Ops: c.ops, Out: res.out, Origin: c.origin, OrigSize: len(c.ops)})
+			failures = append(failures, vFailure{Key: "hang", What: fmt.Sprintf("the case did not finish within %d s: a call into the library never returned (no shrinking: the process state is not reusable)%s", vEnvInt("VERIF_CASE_TIMEOUT_S", 60), strings.TrimPrefix(res.specFail, "case timed out (hang)")), Ops: c.ops, Out: res.out, Origin: c.origin, OrigSize: len(c.ops)})
 			break
 		}
 		if res.specFail != "" {
